@@ -16,6 +16,8 @@ enum Act {
     Size(usize),
     Reset(usize),
     CloneReplace,
+    /// `target.clone_from(&dsu)` into a target with a different history, then continue with the target
+    CloneFromReplace(u8),
 }
 
 #[derive(Clone)]
@@ -118,6 +120,9 @@ impl System for Sys {
             }
         }
         v.push(Act::CloneReplace);
+        for k in 0..4 {
+            v.push(Act::CloneFromReplace(k));
+        }
         v
     }
 
@@ -168,6 +173,34 @@ impl System for Sys {
                 s.lab = (0..m).collect();
                 structural = true;
                 fp = m as u64;
+            }
+            Act::CloneFromReplace(kind) => {
+                // targets: fresh of the same size; same size with everything united; one element more; empty
+                let mut t = match kind {
+                    0 => DSU::new(n),
+                    1 => {
+                        let mut t = DSU::new(n);
+                        for i in 1..n {
+                            t.un(i - 1, i);
+                        }
+                        t
+                    }
+                    2 => {
+                        let mut t = DSU::new(n + 1);
+                        if n >= 1 {
+                            t.un(0, n);
+                        }
+                        t
+                    }
+                    _ => DSU::new(0),
+                };
+                t.clone_from(&s.dsu);
+                let (a1, a2) = (format!("{:?}", t), format!("{:?}", s.dsu));
+                if a1 != a2 {
+                    return Err(format!("after target.clone_from(&dsu) the target renders {a1}, the source {a2}"));
+                }
+                s.dsu = t;
+                fp = 0;
             }
             Act::CloneReplace => {
                 let c = s.dsu.clone();
@@ -255,6 +288,7 @@ impl System for Sys {
             Act::Size(_) => "size",
             Act::Reset(_) => "reset",
             Act::CloneReplace => "clone",
+            Act::CloneFromReplace(_) => "clone_from",
         }
     }
 }
@@ -476,7 +510,7 @@ fn main() {
     }
 
     // directed long histories
-    let ks: Vec<u32> = args.tier.pick(vec![4, 10, 16], vec![4, 7, 10, 14, 17, 20]);
+    let ks: Vec<u32> = args.tier.pick(vec![4, 10, 18], vec![4, 7, 10, 14, 17, 20]);
     let mut menu_cases = 0u64;
     let mut menu_maxdepth = 0u64;
     let mut menu_samples = vec![];
